@@ -898,7 +898,21 @@ func Gen(r *vh.Rng, tier string, emit func(op, impl, class string, nontrivial bo
 			em.run(3+r.Intn(3), ut, d, append([]byte{0, 0, 0, byte(len(v))}, v...), false)
 		}
 	}
+	// tuples stored by reflection into structs whose fields cannot be set (time.Time, big.Int, inf.Dec: unexported
+	// fields; setTupleElem must answer with an error, reflect.Value.Set would panic)
+	for _, sh := range [][2]string{{"tuple(int,int,int)", "time"}, {"tuple(text,int,blob)", "time"}, {"tuple(int,int)", "bigint"}, {"tuple(boolean,int)", "bigint"}, {"tuple(boolean,blob)", "ptr(bigint)"},
+		{"tuple(int,text)", "dec"}, {"tuple(int,int,int)", "ptr(time)"}, {"list(tuple(int,int))", "slice(bigint)"}} {
+		for _, data := range [][]byte{{}, {0, 0, 0, 4, 0, 0, 0, 1}, {0xff, 0xff, 0xff, 0xff}, {0, 0, 0, 4, 0, 0, 0, 1, 0, 0, 0, 4, 0, 0, 0, 2, 0, 0, 0, 4, 0, 0, 0, 3}} {
+			d := data
+			if sh[0][:4] == "list" {
+				d = append([]byte{0, 0, 0, 1, 0, 0, 0, byte(len(data))}, data...)
+			}
+			em.run(4, mustParse(sh[0]), mustParse(sh[1]), d, false)
+		}
+	}
+	genAlloc(r, mult, emit)
 	stats = map[string]interface{}{
+		"alloc_val_max_ratio_permille": AllocMaxRatio,
 		"val_skipped_alloc_cap": em.skipped,
 		"val_alloc":             measureAlloc(),
 	}
